@@ -57,7 +57,8 @@ pub(crate) fn read<V: MultiClassVisitor>(reader: &mut impl ClassRead, visitor: V
 	let major = reader.read_u16()?;
 	let version = Version::new(major, minor);
 
-	if version > Version::V23 {
+	// Only the major version decides, class files using preview features have a minor version of 65535.
+	if version.major > Version::V23.major {
 		bail!("unsupported class file version: {version:?}");
 	}
 
